@@ -134,6 +134,30 @@ def register(T, repo):
     lp.shapes['cur_sec'] = lambda E: tm.OutList(E['src'])
     lp.shapes['lang_stack'] = lambda E: ListS(
         StrS(name='lang'), lambda n: zint(n) >= 1, 'lang_stack')
+
+    def stack_discipline(E0, E1):
+        # C12 (nesting): the splitter's stack follows the language tokens
+        # like the parser's own stack (Parameters.change_parser_lang): a soft
+        # switch pushes -- also when the language does not change, because
+        # its closing token will pop --, a closing token pops (never the
+        # main language), a hard switch keeps the depth
+        ex = E0['$ex']
+        t = E1['t']
+        o = t.obj if isinstance(t, Opt) else t
+        if not isinstance(o, Obj):
+            return True
+        islang = tm.cls_is(ex, o, D + 'LanguageToken')
+        n0 = zint(E0['lang_stack'].length())
+        n1 = zint(E1['lang_stack'].length())
+        back = zbool(tm.tfield(o, 'back', False))
+        hard = zbool(tm.tfield(o, 'hard', False))
+        return And(
+            Implies(Not(islang), n1 == n0),
+            Implies(And(islang, back), n1 == z3.If(n0 > 1, n0 - 1, n0)),
+            Implies(And(islang, Not(back), hard), n1 == n0),
+            Implies(And(islang, Not(back), Not(hard)), n1 == n0 + 1))
+    lp.body_post.append(('language-stack-follows-the-tokens',
+                         stack_discipline))
     # loop 1: while sections
     lp = c.loop(1)
     lp.shapes['sections'] = lambda E: ListS(SecS(E, True), None, 'sections')
